@@ -3,6 +3,7 @@ package querylog
 import (
 	"context"
 	"log/slog"
+	"math"
 	"time"
 )
 
@@ -36,6 +37,17 @@ func newSearchParams() *searchParams {
 		// by default, we scan up to 50k entries at once
 		maxFileScanEntries: 50000,
 	}
+}
+
+// totalLimit returns the number of matching entries to collect before the
+// offset is applied.  It saturates instead of overflowing.  s.offset and
+// s.limit must not be negative.
+func (s *searchParams) totalLimit() (n int) {
+	if s.limit > math.MaxInt-s.offset {
+		return math.MaxInt
+	}
+
+	return s.offset + s.limit
 }
 
 // quickMatchClientFunc is a simplified client finder for quick matches.
